@@ -307,7 +307,7 @@ fn main() {
                     }
                     ctx.exhaustive.insert(format!("all pairs for comparison, n={}", n), true);
                 } else {
-                    let reps = if thorough { 40 } else { 3 };
+                    let reps = if thorough { 300 } else { 4 };
                     for _ in 0..reps {
                         for fam in Fam::ALL {
                             let a = gen::gen(fam, n, &mut rng);
@@ -333,7 +333,7 @@ fn main() {
                     }
                 }
                 // sort of random vectors
-                let reps = if thorough { 60 } else { 6 };
+                let reps = if thorough { 600 } else { 8 };
                 for _ in 0..reps {
                     let len = rng.range(2, 24);
                     let base = gen::random_blocks(n, &mut rng);
@@ -367,7 +367,7 @@ fn main() {
                 // zero, all ones, low j words all ones for every j (random above), low bits all ones in-word
                 both(ctx, n, |ty| Ev::new("iter-step", ty, n).tab(&Model::constant(n, false).to_blocks()));
                 both(ctx, n, |ty| Ev::new("iter-step", ty, n).tab(&Model::constant(n, true).to_blocks()));
-                let reps = if thorough { 30 } else { 3 };
+                let reps = if thorough { 300 } else { 4 };
                 for _ in 0..reps {
                     for j in 0..=w {
                         if j == w && n >= 6 {
